@@ -43,23 +43,52 @@ Proof. exact early_exit_never_changes_the_verdict. Qed.
 
 (** The error funnel of conduct, for every order in which the four components
     finish and every mix of cancellations with real errors. *)
-Theorem c03_funnel_keeps_audit_verdict : forall sc o verdict cleanup,
-  exit_nonzero verdict = true -> exit_nonzero (conduct_result sc o verdict cleanup) = true.
-Proof. exact funnel_keeps_audit_verdict. Qed.
+Theorem c03_funnel_keeps_audit_verdict : forall ch o verdict cleanup,
+  exit_nonzero verdict = true -> exit_nonzero (conduct_result true ch o verdict cleanup) = true.
+Proof. exact (funnel_keeps_audit_verdict true). Qed.
 
-Theorem c03_funnel_keeps_cleanup_failure : forall sc o verdict cleanup,
-  exit_nonzero cleanup = true -> exit_nonzero (conduct_result sc o verdict cleanup) = true.
-Proof. exact funnel_keeps_cleanup_failure. Qed.
+Theorem c03_funnel_keeps_cleanup_failure : forall ch o verdict cleanup,
+  exit_nonzero cleanup = true -> exit_nonzero (conduct_result true ch o verdict cleanup) = true.
+Proof. exact (funnel_keeps_cleanup_failure true). Qed.
 
-Theorem c03_funnel_keeps_component_errors : forall sc o verdict cleanup x,
+Theorem c03_funnel_keeps_component_errors : forall ch o verdict cleanup x,
   exit_nonzero (comp_err o x) = true -> is_last KCancel (comp_err o x) = false ->
-  exit_nonzero (conduct_result sc o verdict cleanup) = true.
-Proof. exact funnel_keeps_component_errors. Qed.
+  exit_nonzero (conduct_result true ch o verdict cleanup) = true.
+Proof. exact (funnel_keeps_component_errors true). Qed.
 
-Theorem c03_funnel_no_spurious_foul : forall sc o verdict cleanup,
-  exit_nonzero (conduct_result sc o verdict cleanup) = true ->
+Theorem c03_funnel_no_spurious_foul : forall ch o verdict cleanup,
+  exit_nonzero (conduct_result true ch o verdict cleanup) = true ->
   exit_nonzero verdict = true \/ exit_nonzero cleanup = true \/ exists x, exit_nonzero (comp_err o x) = true.
-Proof. exact funnel_no_spurious_foul. Qed.
+Proof. exact (funnel_no_spurious_foul true). Qed.
+
+(** Whatever the selects of the four shutdown stages choose, every component's
+    error channel is read exactly once that finds its value. *)
+Theorem c03_conduct_reads_each_component_once : forall ch o,
+  NoDup (map fst (sh_reads (conduct_run true ch o))) /\ forall x, In x (map fst (sh_reads (conduct_run true ch o))).
+Proof. exact (conduct_reads_each_component_once true). Qed.
+
+(** conduct cancels the collector (which drops the reports queued for it, and
+    the verdict with them) only after another component has delivered an
+    error — for every order in which the components end. *)
+Theorem c03_collector_cancelled_only_after_a_failure : forall ch o,
+  In CC (sh_cancelled (conduct_run true ch o)) -> exists x, x <> CC /\ comp_err o x <> [].
+Proof. exact collector_cancelled_only_after_a_failure. Qed.
+
+(** So a play whose commands and expressions do not fail exits by the verdict
+    over ALL the auditors' reports. *)
+Theorem c03_failure_free_play_exits_by_the_verdict : forall ch cfg rs t st,
+  collector_run cfg false tally0 rs = (t, st) ->
+  let o := {| o_p := []; o_s := []; o_a := []; o_c := verdict_err cfg t |} in
+  ~ In CC (sh_cancelled (conduct_run true ch o)) /\
+  exit_nonzero (conduct_result true ch o (verdict_err cfg t) []) = fouled cfg t.
+Proof. exact failure_free_play_exits_by_the_verdict. Qed.
+
+(** This was false of the code as pinned (model with fixed = false): the
+    audition ending before the spotlight supervisor had reported made the
+    second stage cancel the collector; repaired in /repo (see KNOWN_FINDINGS). *)
+Theorem c03_pinned_code_cancelled_the_collector_refuted :
+  exists ch o, o_p o = [] /\ o_s o = [] /\ o_a o = [] /\ In CC (sh_cancelled (conduct_run false ch o)).
+Proof. exact pinned_code_cancelled_the_collector_refuted. Qed.
 
 (** Within a component, the results of concurrent commands are combined
     without loss, in any completion order. *)
@@ -73,9 +102,9 @@ Proof. exact collect_errors_keeps_failures. Qed.
     to finish (errorCollection.Unwrap returns the last element).  The theorem
     above is the proved part; this is the witness. *)
 Theorem c03_funnel_every_component_error_kept_refuted :
-  exists sc o, exit_nonzero (o_a o) = true /\
+  exists ch o, exit_nonzero (o_a o) = true /\
                existsb (fun k => match k with KReal => true | _ => false end) (o_a o) = true /\
-               conduct_result sc o [] [] = [].
+               conduct_result true ch o [] [] = [].
 Proof. exact funnel_drops_cancel_last_refuted. Qed.
 
 (** Non-vacuity. *)
@@ -84,5 +113,5 @@ Example c03_nonvacuous :
   = Some [("al", (FIgnore, FZero)); ("bo", (FNonZero, FIgnore)); ("cy", (FNonZero, FIgnore))]%string
   /\ fouled [("al", (FIgnore, FZero))]%string (fst (collector_run [("al", (FIgnore, FZero))]%string false tally0 [("al", 2); ("al", 3)]%string%Z)) = true
   /\ fouled [("al", (FIgnore, FZero))]%string (fst (collector_run [("al", (FIgnore, FZero))]%string false tally0 [("al", 2); ("al", 0)]%string%Z)) = false
-  /\ conduct_result SchP_S_A {| o_p := []; o_s := []; o_a := []; o_c := [KAudit; KCancel] |} [KAudit] [] = [KAudit].
+  /\ conduct_result true [CP; CS; CA] {| o_p := []; o_s := []; o_a := []; o_c := [KAudit; KCancel] |} [KAudit] [] = [KAudit].
 Proof. vm_compute. repeat split. Qed.
